@@ -1039,3 +1039,899 @@ Proof.
   - intros sp c a w w' H. exact (proj1 (proj1 (proj2 (progress_iff sp c a w w' CONNECTED H))) eq_refl).
   - exact run_sound.
 Qed.
+
+(** * The final set of done items is the least fixed point of the derivation rules *)
+
+(** counting *)
+Lemma filter_or_length : forall (A : Type) (f g : A -> bool) l,
+    (forall x, In x l -> f x = true -> g x = false) ->
+    length (filter (fun x => f x || g x) l) = length (filter f l) + length (filter g l).
+Proof.
+  intros A f g l. induction l as [|x r IH]; intros H; simpl; [reflexivity|].
+  assert (IH' := IH (fun y Hy => H y (or_intror Hy))).
+  destruct (f x) eqn:Ef; simpl.
+  - rewrite (H x (or_introl eq_refl) Ef). simpl. rewrite IH'. reflexivity.
+  - destruct (g x); simpl; rewrite IH'; lia.
+Qed.
+
+Lemma filter_ext_length : forall (A : Type) (f g : A -> bool) l,
+    (forall x, In x l -> f x = g x) -> length (filter f l) = length (filter g l).
+Proof.
+  intros A f g l. induction l as [|x r IH]; intros H; simpl; [reflexivity|].
+  rewrite (H x (or_introl eq_refl)). assert (IH' := IH (fun y Hy => H y (or_intror Hy))).
+  destruct (g x); simpl; rewrite IH'; reflexivity.
+Qed.
+
+Lemma filter_false_length : forall (A : Type) (f : A -> bool) l,
+    (forall x, In x l -> f x = false) -> length (filter f l) = 0.
+Proof.
+  intros A f l. induction l as [|x r IH]; intros H; simpl; [reflexivity|].
+  rewrite (H x (or_introl eq_refl)). apply IH. intros y Hy. apply H. right. exact Hy.
+Qed.
+
+(** for duplicate-free lists the two ways of counting an intersection agree *)
+Lemma count_inter : forall (g : nat -> bool) (A B : list nat),
+    NoDup A -> NoDup B ->
+    length (filter (fun x => g x && mem x B) A) = length (filter (fun x => g x && mem x A) B).
+Proof.
+  intros g A. induction A as [|a A' IH]; intros B HA HB; simpl.
+  - symmetry. apply filter_false_length. intros x _. apply andb_false_r.
+  - apply NoDup_cons_iff in HA. destruct HA as [Hna HA'].
+    rewrite (filter_ext_length _ (fun x => g x && (Nat.eqb x a || mem x A')) (fun x => (g x && Nat.eqb x a) || (g x && mem x A')) B)
+      by (intros x _; destruct (g x), (Nat.eqb x a), (mem x A'); reflexivity).
+    rewrite filter_or_length.
+    2:{ intros x _ H. apply andb_true_iff in H. destruct H as [_ H]. apply Nat.eqb_eq in H. subst.
+        rewrite (mem_false a A' Hna). apply andb_false_r. }
+    rewrite <- (IH B HA' HB).
+    assert (E : length (filter (fun x => g x && Nat.eqb x a) B) = if g a && mem a B then 1 else 0).
+    { clear -HB. induction B as [|b B' IHB]; simpl; [rewrite andb_false_r; reflexivity|].
+      apply NoDup_cons_iff in HB. destruct HB as [Hnb HB']. specialize (IHB HB').
+      rewrite (Nat.eqb_sym a b). destruct (Nat.eqb b a) eqn:Eb.
+      - apply Nat.eqb_eq in Eb. subst b. simpl. rewrite (mem_false a B' Hnb) in IHB. rewrite andb_false_r in IHB.
+        destruct (g a); simpl; [rewrite IHB; reflexivity|exact IHB].
+      - rewrite andb_false_r. simpl. exact IHB. }
+    rewrite E. destruct (g a && mem a B); simpl; lia.
+Qed.
+
+Lemma filter_all_length : forall (A : Type) (p q : A -> bool) l,
+    length (filter p l) <= length (filter (fun x => p x && q x) l) ->
+    forall x, In x l -> p x = true -> q x = true.
+Proof.
+  intros A p q l. induction l as [|y r IH]; intros H x Hin Hp; [destruct Hin|].
+  simpl in H.
+  assert (Hle : length (filter (fun x => p x && q x) r) <= length (filter p r)).
+  { clear. induction r as [|z r IH]; simpl; [lia|]. destruct (p z), (q z); simpl; lia. }
+  destruct (p y) eqn:Epy; simpl in H.
+  - destruct (q y) eqn:Eqy; simpl in H.
+    + destruct Hin as [->|Hin]; [exact Eqy|]. apply IH; auto. lia.
+    + lia.
+  - destruct Hin as [->|Hin]; [congruence|]. apply IH; auto.
+Qed.
+
+Lemma NoDup_flat_map_in : forall (f : comp -> list nat) cs c, NoDup (flat_map f cs) -> In c cs -> NoDup (f c).
+Proof.
+  intros f cs c. induction cs as [|x r IH]; intros H Hin; [destruct Hin|]. simpl in H.
+  destruct Hin as [->|Hin].
+  - clear IH. induction (f c) as [|y l IHl]; [constructor|]. simpl in H. apply NoDup_cons_iff in H. destruct H as [Hn H].
+    constructor; [intros Hy; apply Hn; apply in_or_app; left; exact Hy|apply IHl; exact H].
+  - apply IH; [|exact Hin]. apply (NoDup_app_inv _ _ _ H).
+Qed.
+
+Section Fix.
+  Variable sp : spec.
+  Variable cs : list comp.
+  Hypothesis WF : wf_setup sp cs.
+
+  Notation D := (derivable sp cs).
+  Notation src i := (is_src (sp_in sp i)).
+
+  Lemma step_mono : forall (P Q : item -> Prop), (forall it, P it -> Q it) -> forall it, step sp cs P it -> step sp cs Q it.
+  Proof.
+    intros P Q H it. unfold step, deps_in, rules_in.
+    destruct it as [i|i|o|o|o].
+    - intros (Ho & [Hown|[(ds & t & Hp & Hd)|(rs & Hr & Hs & Ht)]] & Hsrc); (split; [exact Ho|split; [|apply H; exact Hsrc]]).
+      + left. exact Hown.
+      + right. left. exists ds, t. split; [exact Hp|]. intros d Hin. apply H. apply Hd. exact Hin.
+      + right. right. exists rs. split; [exact Hr|]. split; [|exact Ht]. intros r it Hin Hsr. apply H. eapply Hs; eauto.
+    - intros (Ho & Hp & H1 & H2). repeat split; auto.
+    - intros (Ho & H1 & H2). repeat split; auto.
+    - intros [Hown|(Ho & [(ds & t & Hp & Hd)|(rs & Hr & Hs & Ht)])]; [left; exact Hown|right|right]; (split; [exact Ho|]).
+      + left. exists ds, t. split; [exact Hp|]. intros d Hin. apply H. apply Hd. exact Hin.
+      + right. exists rs. split; [exact Hr|]. split; [|exact Ht]. intros r it Hin Hsr. apply H. eapply Hs; eauto.
+    - intros (Ho & (ds & p & Hp & Hd) & H1 & H2). split; [exact Ho|]. split; [|split; apply H; assumption].
+      exists ds, p. split; [exact Hp|]. intros d Hin. apply H. apply Hd. exact Hin.
+  Qed.
+
+  Lemma derivable_closed : closed sp cs D.
+  Proof.
+    intros it Hs P HP. apply HP. eapply step_mono; [|exact Hs]. intros it' Hd. apply Hd. exact HP.
+  Qed.
+
+  (** transfer rules *)
+  Lemma apply_rules_some : forall w rs acc t,
+      apply_rules w rs acc = Some t ->
+      (forall r it, In r rs -> rule_src r = Some it -> done w it = true)
+      /\ (is_some acc || existsb sets_time rs = true).
+  Proof.
+    intros w rs. induction rs as [|r rs IH]; intros acc t H; simpl in H.
+    - subst acc. split; [intros ? ? []|reflexivity].
+    - destruct r as [i wt|o wt|v].
+      + destruct (in_exch (wi w i)) as [ti|] eqn:E; [|discriminate]. destruct (IH _ _ H) as [H1 H2]. split.
+        * intros r it [<-|Hin] Hs; [injection Hs as <-; simpl; rewrite E; reflexivity|eapply H1; eauto].
+        * simpl. destruct wt; simpl in *; [apply orb_true_r|exact H2].
+      + destruct (o_hinfo (wo w o)) as [ti|] eqn:E; [|discriminate]. destruct (IH _ _ H) as [H1 H2]. split.
+        * intros r it [<-|Hin] Hs; [injection Hs as <-; simpl; rewrite E; reflexivity|eapply H1; eauto].
+        * simpl. destruct wt; simpl in *; [apply orb_true_r|exact H2].
+      + destruct (IH _ _ H) as [H1 H2]. split.
+        * intros r it [<-|Hin] Hs; [discriminate|eapply H1; eauto].
+        * simpl. destruct v; simpl in *; [apply orb_true_r|exact H2].
+  Qed.
+
+  Lemma apply_rules_complete : forall w rs acc,
+      (forall r it, In r rs -> rule_src r = Some it -> done w it = true) ->
+      is_some acc || existsb sets_time rs = true ->
+      exists t, apply_rules w rs acc = Some t.
+  Proof.
+    intros w rs. induction rs as [|r rs IH]; intros acc H1 H2; simpl in *.
+    - rewrite orb_false_r in H2. destruct acc; [eauto|discriminate].
+    - assert (H1' : forall r0 it, In r0 rs -> rule_src r0 = Some it -> done w it = true) by (intros; eapply H1; eauto).
+      destruct r as [i wt|o wt|v].
+      + pose proof (H1 (FromIn i wt) (IInInfo i) (or_introl eq_refl) eq_refl) as Hd. simpl in Hd.
+        destruct (in_exch (wi w i)) as [ti|]; [|discriminate]. apply IH; [exact H1'|].
+        simpl in H2. destruct wt; simpl in *; [reflexivity|exact H2].
+      + pose proof (H1 (FromOut o wt) (IOutInfo o) (or_introl eq_refl) eq_refl) as Hd. simpl in Hd.
+        destruct (o_hinfo (wo w o)) as [ti|]; [|discriminate]. apply IH; [exact H1'|].
+        simpl in H2. destruct wt; simpl in *; [reflexivity|exact H2].
+      + apply IH; [exact H1'|]. simpl in H2. destruct v; simpl in *; [reflexivity|exact H2].
+  Qed.
+
+  (** ** The invariant *)
+  Definition just_in (i : nat) : Prop :=
+    is_own (sp_in sp i) <> None
+    \/ (exists ds t, is_prov (sp_in sp i) = Some (ds, t) /\ deps_in D ds)
+    \/ (exists rs, is_rules (sp_in sp i) = Some rs /\ rules_in D rs).
+  Definition just_out (o : nat) : Prop :=
+    (exists ds t, os_prov_info (sp_out sp o) = Some (ds, t) /\ deps_in D ds)
+    \/ (exists rs, os_rules (sp_out sp o) = Some rs /\ rules_in D rs).
+  Definition just_data (o : nat) : Prop :=
+    exists ds p, os_prov_data (sp_out sp o) = Some (ds, p) /\ deps_in D ds.
+
+  Definition cnt (w : world) (o : nat) : nat :=
+    length (filter (fun i => Nat.eqb (src i) o && is_some (in_exch (wi w i))) (sp_ins sp)).
+
+  Definition lookup_data (o : nat) (l : list (option Z * nat)) : option nat :=
+    match l with
+    | [] => None
+    | (_, d) :: _ => if os_static (sp_out sp o) then Some d else interp_loop None l (sp_start sp)
+    end.
+
+  Record Inv (w : world) : Prop := mk_Inv {
+    K1 : forall o, o_ipushed (wo w o) = is_some (o_info (wo w o));
+    K2 : forall o, o_exch (wo w o) = cnt w o;
+    K3 : forall i, is_some (in_exch (wi w i)) = true -> is_some (o_info (wo w (src i))) = true;
+    K4 : forall o, is_some (o_hinfo (wo w o)) = true ->
+                   o_ipushed (wo w o) = true /\ nconn sp o <= o_exch (wo w o);
+    K5 : forall o, o_dpushed (wo w o) = true ->
+                   is_some (o_hinfo (wo w o)) = true
+                   /\ (0 < nconn sp o -> is_some (lookup_data o (o_data (wo w o))) = true);
+    K5b : forall o, o_dpushed (wo w o) = false -> o_data (wo w o) = [];
+    K7i : forall i, is_some (in_cache (wi w i)) = true -> just_in i;
+    K7o : forall o, is_some (o_icache (wo w o)) = true -> just_out o;
+    K7d : forall o, is_some (o_dcache (wo w o)) = true -> just_data o;
+    K8 : forall it, done w it = true -> D it;
+    K10 : forall o, os_own (sp_out sp o) <> None -> o_ipushed (wo w o) = true
+  }.
+
+  Definition args_just (a : args) : Prop :=
+    (forall i, is_some (a_ex a i) = true -> just_in i)
+    /\ (forall o, is_some (a_pi a o) = true -> just_out o)
+    /\ (forall o, is_some (a_pd a o) = true -> just_data o).
+
+  Lemma cnt_ext : forall w w' o,
+      (forall i, is_some (in_exch (wi w' i)) = is_some (in_exch (wi w i))) -> cnt w' o = cnt w o.
+  Proof. intros w w' o H. unfold cnt. apply filter_ext_length. intros i _. rewrite H. reflexivity. Qed.
+
+  Lemma deps_ok_D : forall w ds, (forall it, done w it = true -> D it) -> deps_ok w ds = true -> deps_in D ds.
+  Proof.
+    intros w ds HK H d Hin. apply HK. unfold deps_ok in H. rewrite forallb_forall in H. apply H. exact Hin.
+  Qed.
+
+  Lemma prov_args_just : forall w, (forall it, done w it = true -> D it) -> args_just (prov_args sp w).
+  Proof.
+    intros w HK. unfold args_just, prov_args. cbn. repeat split.
+    - intros i H. destruct (is_prov (sp_in sp i)) as [[ds t]|] eqn:E; [|discriminate].
+      destruct (deps_ok w ds) eqn:Ed; [|discriminate]. right. left. exists ds, t. split; [exact E|]. eapply deps_ok_D; eauto.
+    - intros o H. destruct (os_prov_info (sp_out sp o)) as [[ds t]|] eqn:E; [|discriminate].
+      destruct (deps_ok w ds) eqn:Ed; [|discriminate]. left. exists ds, t. split; [exact E|]. eapply deps_ok_D; eauto.
+    - intros o H. destruct (os_prov_data (sp_out sp o)) as [[ds p]|] eqn:E; [|discriminate].
+      destruct (deps_ok w ds) eqn:Ed; [|discriminate]. exists ds, p. split; [exact E|]. eapply deps_ok_D; eauto.
+  Qed.
+
+  Lemma rules_D : forall w rs t, (forall it, done w it = true -> D it) -> apply_rules w rs None = Some t -> rules_in D rs.
+  Proof.
+    intros w rs t HK H. destruct (apply_rules_some w rs None t H) as [H1 H2]. split; [|exact H2].
+    intros r it Hin Hs. apply HK. eapply H1; eauto.
+  Qed.
+
+  Lemma upd_cache_some : forall (A : Type) c (new old : option A),
+      is_some (upd_cache c new old) = true -> is_some new = true \/ is_some old = true.
+  Proof. intros A c new old. unfold upd_cache. destruct (c_cache c), new, old; simpl; auto. Qed.
+
+  Lemma own_in_of : forall c i, In c cs -> In i (c_ins c) -> own_in cs i.
+  Proof. intros c i Hc Hi. unfold own_in. apply in_flat_map. exists c. split; assumption. Qed.
+  Lemma own_out_of : forall c o, In c cs -> In o (c_outs c) -> own_out cs o.
+  Proof. intros c o Hc Ho. unfold own_out. apply in_flat_map. exists c. split; assumption. Qed.
+
+  Section Phases.
+    Variable c : comp.
+    Hypothesis Hc : In c cs.
+    Variable a : args.
+    Hypothesis HA : args_just a.
+
+    Lemma inv_cache : forall w, Inv w -> Inv (phase_cache sp c a w).
+    Proof.
+      intros w I.
+      assert (FI : forall i, in_exch (wi (phase_cache sp c a w) i) = in_exch (wi w i)
+                             /\ in_data (wi (phase_cache sp c a w) i) = in_data (wi w i)).
+      { intros i. rewrite cache_wi. destruct (mem i (c_ins c)); cbn; split; reflexivity. }
+      assert (FO : forall o, let st := wo w o in let st' := wo (phase_cache sp c a w) o in
+                             o_info st' = o_info st /\ o_exch st' = o_exch st /\ o_data st' = o_data st /\
+                             o_hinfo st' = o_hinfo st /\ o_ipushed st' = o_ipushed st /\ o_dpushed st' = o_dpushed st).
+      { intros o. rewrite cache_wo. destruct (mem o (c_outs c)); cbn; repeat split; reflexivity. }
+      destruct HA as (A1 & A2 & A3).
+      constructor.
+      - intros o. destruct (FO o) as (-> & _ & _ & _ & -> & _). apply (K1 w I).
+      - intros o. destruct (FO o) as (_ & -> & _). rewrite (K2 w I). symmetry. apply cnt_ext. intros i. rewrite (proj1 (FI i)). reflexivity.
+      - intros i. rewrite (proj1 (FI i)). destruct (FO (src i)) as (-> & _). apply (K3 w I).
+      - intros o. destruct (FO o) as (_ & -> & _ & -> & -> & _). apply (K4 w I).
+      - intros o. destruct (FO o) as (_ & _ & -> & -> & _ & ->). apply (K5 w I).
+      - intros o. destruct (FO o) as (_ & _ & -> & _ & _ & ->). apply (K5b w I).
+      - intros i. rewrite cache_wi. destruct (mem i (c_ins c)) eqn:Em; [|apply (K7i w I)]. cbn.
+        intros H. apply upd_cache_some in H. destruct H as [H|H]; [|apply (K7i w I); exact H].
+        unfold ex_eff in H.
+        destruct (is_rules (sp_in sp i)) as [rs|] eqn:Er.
+        + destruct (negb (is_some (in_exch (wi w i))) && (negb (c_cache c) || negb (is_some (in_cache (wi w i))))).
+          * destruct (apply_rules w rs None) as [t|] eqn:Ea.
+            -- right. right. exists rs. split; [exact Er|]. eapply rules_D; [apply (K8 w I)|exact Ea].
+            -- apply A1. destruct (in_exch (wi w i)); [discriminate|exact H].
+          * apply A1. destruct (in_exch (wi w i)); [discriminate|exact H].
+        + apply A1. destruct (in_exch (wi w i)); [discriminate|exact H].
+      - intros o. rewrite cache_wo. destruct (mem o (c_outs c)) eqn:Em; [|apply (K7o w I)]. cbn.
+        intros H. apply upd_cache_some in H. destruct H as [H|H]; [|apply (K7o w I); exact H].
+        unfold pi_eff in H.
+        destruct (os_rules (sp_out sp o)) as [rs|] eqn:Er.
+        + destruct (negb (o_ipushed (wo w o)) && (negb (c_cache c) || negb (is_some (o_icache (wo w o))))).
+          * destruct (apply_rules w rs None) as [t|] eqn:Ea.
+            -- right. exists rs. split; [exact Er|]. eapply rules_D; [apply (K8 w I)|exact Ea].
+            -- apply A2. destruct (o_hinfo (wo w o)); [discriminate|exact H].
+          * apply A2. destruct (o_hinfo (wo w o)); [discriminate|exact H].
+        + apply A2. destruct (o_hinfo (wo w o)); [discriminate|exact H].
+      - intros o. rewrite cache_wo. destruct (mem o (c_outs c)) eqn:Em; [|apply (K7d w I)]. cbn.
+        intros H. apply upd_cache_some in H. destruct H as [H|H]; [|apply (K7d w I); exact H].
+        unfold pd_eff in H. apply A3. destruct (o_dpushed (wo w o)); [discriminate|exact H].
+      - intros it. rewrite cache_done. apply (K8 w I).
+      - intros o. destruct (FO o) as (_ & _ & _ & _ & -> & _). apply (K10 w I).
+    Qed.
+
+    Lemma c_ins_sub : forall i, In i (c_ins c) -> In i (sp_ins sp).
+    Proof. intros i Hi. destruct WF as (_ & _ & W3). apply W3. eapply own_in_of; eauto. Qed.
+
+    Lemma ex_some : forall w i,
+        is_some (in_exch (wi (phase_exchange sp c w) i))
+        = is_some (in_exch (wi w i)) || (mem i (c_ins c) && fires_ex sp w i).
+    Proof.
+      intros w i. rewrite ex_wi. destruct (mem i (c_ins c) && fires_ex sp w i) eqn:E; cbn.
+      - apply andb_true_iff in E. destruct E as [_ E]. unfold fires_ex in E.
+        apply andb_true_iff in E. destruct E as [E _]. apply andb_true_iff in E. destruct E as [_ E].
+        rewrite E. symmetry. apply orb_true_r.
+      - rewrite orb_false_r. reflexivity.
+    Qed.
+
+    Lemma cnt_exchange : forall w o, cnt (phase_exchange sp c w) o = cnt w o + ex_count sp c w o.
+    Proof.
+      intros w o. unfold cnt, ex_count.
+      set (g := fun i => fires_ex sp w i && Nat.eqb (src i) o).
+      rewrite (filter_ext_length _ _ (fun i => (Nat.eqb (src i) o && is_some (in_exch (wi w i))) || (g i && mem i (c_ins c))) (sp_ins sp)).
+      2:{ intros i _. rewrite ex_some. unfold g.
+          destruct (Nat.eqb (src i) o), (is_some (in_exch (wi w i))), (mem i (c_ins c)), (fires_ex sp w i); reflexivity. }
+      rewrite filter_or_length.
+      2:{ intros i _ H. apply andb_true_iff in H. destruct H as [_ H]. unfold g, fires_ex. rewrite H. reflexivity. }
+      f_equal.
+      destruct WF as ((WI & _) & WS & _).
+      rewrite (count_inter g (sp_ins sp) (c_ins c) WS (NoDup_flat_map_in c_ins cs c WI Hc)).
+      apply filter_ext_length. intros i Hi. rewrite (proj2 (mem_In _ _) (c_ins_sub i Hi)). apply andb_true_r.
+    Qed.
+
+    Lemma inv_exchange : forall w, Inv w -> Inv (phase_exchange sp c w).
+    Proof.
+      intros w I.
+      assert (FO : forall o, let st := wo w o in let st' := wo (phase_exchange sp c w) o in
+        o_info st' = o_info st /\ o_exch st' = o_exch st + ex_count sp c w o /\ o_data st' = o_data st /\
+        o_hinfo st' = o_hinfo st /\ o_ipushed st' = o_ipushed st /\ o_dpushed st' = o_dpushed st /\
+        o_icache st' = o_icache st /\ o_dcache st' = o_dcache st) by (intros o; apply ex_wo_fields).
+      constructor.
+      - intros o. destruct (FO o) as (-> & _ & _ & _ & -> & _). apply (K1 w I).
+      - intros o. destruct (FO o) as (_ & -> & _). rewrite (K2 w I). symmetry. apply cnt_exchange.
+      - intros i. rewrite ex_some. destruct (FO (src i)) as (-> & _). intros H.
+        apply orb_true_iff in H. destruct H as [H|H]; [apply (K3 w I); exact H|].
+        apply andb_true_iff in H. destruct H as [_ H]. unfold fires_ex in H. apply andb_true_iff in H. apply H.
+      - intros o. destruct (FO o) as (_ & -> & _ & -> & -> & _). intros H. destruct (K4 w I o H) as [H1 H2]. split; [exact H1|lia].
+      - intros o. destruct (FO o) as (_ & _ & -> & -> & _ & -> & _). apply (K5 w I).
+      - intros o. destruct (FO o) as (_ & _ & -> & _ & _ & -> & _). apply (K5b w I).
+      - intros i. rewrite ex_wi. destruct (mem i (c_ins c) && fires_ex sp w i); cbn; [|apply (K7i w I)].
+        destruct (is_own (sp_in sp i)) eqn:Eo; [intros _; left; congruence|discriminate].
+      - intros o. destruct (FO o) as (_ & _ & _ & _ & _ & _ & -> & _). apply (K7o w I).
+      - intros o. destruct (FO o) as (_ & _ & _ & _ & _ & _ & _ & ->). apply (K7d w I).
+      - intros it. destruct it as [i|i|o|o|o]; cbn.
+        + rewrite ex_some. intros H. apply orb_true_iff in H. destruct H as [H|H]; [apply (K8 w I (IInInfo i)); exact H|].
+          apply andb_true_iff in H. destruct H as [Hm H]. apply mem_In in Hm.
+          unfold fires_ex in H. apply andb_true_iff in H. destruct H as [H H3]. apply andb_true_iff in H. destruct H as [_ H2].
+          apply derivable_closed. cbn. split; [eapply own_in_of; eauto|]. split.
+          * unfold ex_req in H2. destruct (is_own (sp_in sp i)) eqn:Eo; [left; congruence|].
+            destruct (K7i w I i H2) as [J|J]; [congruence|right; exact J].
+          * apply (K8 w I (IInfoPushed (src i))). cbn. rewrite (K1 w I). exact H3.
+        + rewrite ex_wi. destruct (mem i (c_ins c) && fires_ex sp w i); cbn; apply (K8 w I (IPulled i)).
+        + destruct (FO o) as (_ & _ & _ & -> & _). apply (K8 w I (IOutInfo o)).
+        + destruct (FO o) as (_ & _ & _ & _ & -> & _). apply (K8 w I (IInfoPushed o)).
+        + destruct (FO o) as (_ & _ & _ & _ & _ & -> & _). apply (K8 w I (IDataPushed o)).
+      - intros o. destruct (FO o) as (_ & _ & _ & _ & -> & _). apply (K10 w I).
+    Qed.
+
+    Lemma oi_wi' : forall w i, wi (phase_outinfo sp c w) i = wi w i. Proof. reflexivity. Qed.
+    Lemma pi_wi' : forall w i, wi (phase_pushinfo c w) i = wi w i. Proof. reflexivity. Qed.
+    Lemma pd_wi' : forall w i, wi (phase_pushdata sp c w) i = wi w i. Proof. reflexivity. Qed.
+    Lemma pl_wo' : forall w o, wo (phase_pull sp c w) o = wo w o. Proof. reflexivity. Qed.
+
+    Lemma inv_outinfo : forall w, Inv w -> Inv (phase_outinfo sp c w).
+    Proof.
+      intros w I.
+      assert (FO : forall o, let st := wo w o in let st' := wo (phase_outinfo sp c w) o in
+        o_info st' = o_info st /\ o_exch st' = o_exch st /\ o_data st' = o_data st /\
+        o_ipushed st' = o_ipushed st /\ o_dpushed st' = o_dpushed st /\
+        o_icache st' = o_icache st /\ o_dcache st' = o_dcache st /\
+        o_hinfo st' = (if mem o (c_outs c) && fires_oi sp w o then o_info st else o_hinfo st)).
+      { intros o. rewrite oi_wo. destruct (mem o (c_outs c) && fires_oi sp w o); cbn; repeat split; reflexivity. }
+      assert (FH : forall o, is_some (o_hinfo (wo (phase_outinfo sp c w) o)) = true ->
+                             is_some (o_hinfo (wo w o)) = true \/ (In o (c_outs c) /\ fires_oi sp w o = true)).
+      { intros o. destruct (FO o) as (_ & _ & _ & _ & _ & _ & _ & ->).
+        destruct (mem o (c_outs c) && fires_oi sp w o) eqn:E; [|left; assumption].
+        apply andb_true_iff in E. destruct E as [Em Ef]. right. split; [apply mem_In; exact Em|exact Ef]. }
+      constructor.
+      - intros o. destruct (FO o) as (-> & _ & _ & -> & _). apply (K1 w I).
+      - intros o. destruct (FO o) as (_ & -> & _). rewrite (K2 w I). symmetry. apply cnt_ext. intros i. reflexivity.
+      - intros i. rewrite oi_wi'. destruct (FO (src i)) as (-> & _). apply (K3 w I).
+      - intros o H. destruct (FO o) as (_ & -> & _ & -> & _). destruct (FH o H) as [H'|[_ Hf]]; [apply (K4 w I); exact H'|].
+        unfold fires_oi in Hf. apply andb_true_iff in Hf. destruct Hf as [Hf H3]. apply andb_true_iff in Hf. destruct Hf as [_ H2].
+        split; [rewrite (K1 w I); exact H2|apply Nat.leb_le; exact H3].
+      - intros o. destruct (FO o) as (_ & _ & -> & _ & -> & _ & _ & Hh). intros Hd. destruct (K5 w I o Hd) as [H1 H2]. split; [|exact H2].
+        rewrite Hh. destruct (mem o (c_outs c) && fires_oi sp w o) eqn:E; [|exact H1].
+        apply andb_true_iff in E. destruct E as [_ E]. unfold fires_oi in E. rewrite H1 in E. discriminate.
+      - intros o. destruct (FO o) as (_ & _ & -> & _ & -> & _). apply (K5b w I).
+      - intros i. rewrite oi_wi'. apply (K7i w I).
+      - intros o. destruct (FO o) as (_ & _ & _ & _ & _ & -> & _). apply (K7o w I).
+      - intros o. destruct (FO o) as (_ & _ & _ & _ & _ & _ & -> & _). apply (K7d w I).
+      - intros it. destruct it as [i|i|o|o|o]; cbn.
+        + rewrite oi_wi'. apply (K8 w I (IInInfo i)).
+        + rewrite oi_wi'. apply (K8 w I (IPulled i)).
+        + intros H. destruct (FH o H) as [H'|[Ho Hf]]; [apply (K8 w I (IOutInfo o)); exact H'|].
+          unfold fires_oi in Hf. apply andb_true_iff in Hf. destruct Hf as [Hf H3]. apply andb_true_iff in Hf. destruct Hf as [_ H2].
+          apply Nat.leb_le in H3. rewrite (K2 w I) in H3.
+          apply derivable_closed. cbn. split; [eapply own_out_of; eauto|]. split.
+          * apply (K8 w I (IInfoPushed o)). cbn. rewrite (K1 w I). exact H2.
+          * intros i Hi Hs. apply (K8 w I (IInInfo i)). cbn.
+            apply (filter_all_length nat (fun i => Nat.eqb (src i) o) (fun i => is_some (in_exch (wi w i))) (sp_ins sp) H3 i Hi).
+            apply Nat.eqb_eq. exact Hs.
+        + destruct (FO o) as (_ & _ & _ & -> & _). apply (K8 w I (IInfoPushed o)).
+        + destruct (FO o) as (_ & _ & _ & _ & -> & _). apply (K8 w I (IDataPushed o)).
+      - intros o. destruct (FO o) as (_ & _ & _ & -> & _). apply (K10 w I).
+    Qed.
+
+    Lemma inv_pushinfo : forall w, Inv w -> Inv (phase_pushinfo c w).
+    Proof.
+      intros w I.
+      assert (FO : forall o, let st := wo w o in let st' := wo (phase_pushinfo c w) o in
+        o_exch st' = o_exch st /\ o_data st' = o_data st /\ o_hinfo st' = o_hinfo st /\
+        o_dpushed st' = o_dpushed st /\ o_dcache st' = o_dcache st /\
+        ((mem o (c_outs c) && fires_pi w o = true /\ o_info st' = o_icache st /\ o_ipushed st' = true /\ o_icache st' = None)
+         \/ (o_info st' = o_info st /\ o_ipushed st' = o_ipushed st /\ o_icache st' = o_icache st))).
+      { intros o. rewrite pi_wo. destruct (mem o (c_outs c) && fires_pi w o) eqn:E; cbn; repeat split; try reflexivity;
+          ((left; repeat split; reflexivity) || (right; repeat split; reflexivity)). }
+      assert (FS : forall o, is_some (o_info (wo w o)) = true -> is_some (o_info (wo (phase_pushinfo c w) o)) = true).
+      { intros o H. destruct (FO o) as (_ & _ & _ & _ & _ & [(E & -> & _)|(-> & _)]); [|exact H].
+        apply andb_true_iff in E. destruct E as [_ E]. unfold fires_pi in E. apply andb_true_iff in E. apply E. }
+      constructor.
+      - intros o. destruct (FO o) as (_ & _ & _ & _ & _ & [(E & -> & -> & _)|(-> & -> & _)]); [|apply (K1 w I)].
+        apply andb_true_iff in E. destruct E as [_ E]. unfold fires_pi in E. apply andb_true_iff in E. symmetry. apply E.
+      - intros o. destruct (FO o) as (-> & _). rewrite (K2 w I). symmetry. apply cnt_ext. intros i. reflexivity.
+      - intros i. rewrite pi_wi'. intros H. apply FS. apply (K3 w I). exact H.
+      - intros o. destruct (FO o) as (-> & _ & -> & _ & _ & HH). intros H. destruct (K4 w I o H) as [H1 H2]. split; [|exact H2].
+        destruct HH as [(_ & _ & -> & _)|(_ & -> & _)]; [reflexivity|exact H1].
+      - intros o. destruct (FO o) as (_ & -> & -> & -> & _). apply (K5 w I).
+      - intros o. destruct (FO o) as (_ & -> & _ & -> & _). apply (K5b w I).
+      - intros i. rewrite pi_wi'. apply (K7i w I).
+      - intros o. destruct (FO o) as (_ & _ & _ & _ & _ & [(_ & _ & _ & ->)|(_ & _ & ->)]); [discriminate|apply (K7o w I)].
+      - intros o. destruct (FO o) as (_ & _ & _ & _ & -> & _). apply (K7d w I).
+      - intros it. destruct it as [i|i|o|o|o]; cbn.
+        + rewrite pi_wi'. apply (K8 w I (IInInfo i)).
+        + rewrite pi_wi'. apply (K8 w I (IPulled i)).
+        + destruct (FO o) as (_ & _ & -> & _). apply (K8 w I (IOutInfo o)).
+        + destruct (FO o) as (_ & _ & _ & _ & _ & [(E & _ & _ & _)|(_ & -> & _)]); [|apply (K8 w I (IInfoPushed o))].
+          intros _. apply andb_true_iff in E. destruct E as [Em E]. apply mem_In in Em.
+          unfold fires_pi in E. apply andb_true_iff in E. destruct E as [_ E].
+          apply derivable_closed. cbn. right. split; [eapply own_out_of; eauto|]. apply (K7o w I o E).
+        + destruct (FO o) as (_ & _ & _ & -> & _). apply (K8 w I (IDataPushed o)).
+      - intros o Ho. destruct (FO o) as (_ & _ & _ & _ & _ & [(_ & _ & -> & _)|(_ & -> & _)]); [reflexivity|apply (K10 w I); exact Ho].
+    Qed.
+
+    Lemma lookup_pushed : forall o t p, 0 < nconn sp o -> is_some (lookup_data o (pushed_entries sp o t p)) = true.
+    Proof.
+      intros o t p H. unfold pushed_entries. destruct (nconn sp o =? 0) eqn:E; [apply Nat.eqb_eq in E; lia|].
+      unfold lookup_data. destruct (os_static (sp_out sp o)) eqn:Es; [reflexivity|].
+      destruct (t =? sp_start sp)%Z eqn:Et; simpl.
+      - apply Z.eqb_eq in Et. subst t. rewrite Z.ltb_irrefl, Z.eqb_refl. reflexivity.
+      - rewrite Z.ltb_irrefl, Z.eqb_refl. reflexivity.
+    Qed.
+
+    Lemma inv_pushdata : forall w, Inv w -> Inv (phase_pushdata sp c w).
+    Proof.
+      intros w I.
+      assert (FO : forall o, let st := wo w o in let st' := wo (phase_pushdata sp c w) o in
+        o_info st' = o_info st /\ o_exch st' = o_exch st /\ o_hinfo st' = o_hinfo st /\
+        o_ipushed st' = o_ipushed st /\ o_icache st' = o_icache st /\
+        ((In o (c_outs c) /\ fires_pd w o = true /\ o_dpushed st' = true /\ o_dcache st' = None
+          /\ exists p t, o_hinfo st = Some t /\ o_data st' = o_data st ++ pushed_entries sp o t p)
+         \/ (o_dpushed st' = o_dpushed st /\ o_dcache st' = o_dcache st /\ o_data st' = o_data st))).
+      { intros o. rewrite pd_wo. destruct (mem o (c_outs c) && fires_pd w o) eqn:E; cbn.
+        - apply andb_true_iff in E. destruct E as [Em Ef]. destruct (fires_pd_inv _ _ Ef) as (_ & [p Hp] & _ & [t Ht]).
+          rewrite Hp, Ht. cbn. repeat split; try reflexivity. left. split; [apply mem_In; exact Em|]. split; [exact Ef|].
+          split; [reflexivity|]. split; [reflexivity|]. exists p, t. split; reflexivity.
+        - repeat split; try reflexivity. right. repeat split. }
+      constructor.
+      - intros o. destruct (FO o) as (-> & _ & _ & -> & _). apply (K1 w I).
+      - intros o. destruct (FO o) as (_ & -> & _). rewrite (K2 w I). symmetry. apply cnt_ext. intros i. reflexivity.
+      - intros i. rewrite pd_wi'. destruct (FO (src i)) as (-> & _). apply (K3 w I).
+      - intros o. destruct (FO o) as (_ & -> & -> & -> & _). apply (K4 w I).
+      - intros o. destruct (FO o) as (_ & _ & -> & _ & _ & [(_ & Hf & _ & _ & p & t & Ht & ->)|(-> & _ & ->)]); [|apply (K5 w I)].
+        intros _. split; [rewrite Ht; reflexivity|]. intros Hn.
+        destruct (fires_pd_inv _ _ Hf) as (Hd & _). rewrite (K5b w I o Hd). simpl. apply lookup_pushed. exact Hn.
+      - intros o. destruct (FO o) as (_ & _ & _ & _ & _ & [(_ & _ & -> & _)|(-> & _ & ->)]); [discriminate|apply (K5b w I)].
+      - intros i. rewrite pd_wi'. apply (K7i w I).
+      - intros o. destruct (FO o) as (_ & _ & _ & _ & -> & _). apply (K7o w I).
+      - intros o. destruct (FO o) as (_ & _ & _ & _ & _ & [(_ & _ & _ & -> & _)|(_ & -> & _)]); [discriminate|apply (K7d w I)].
+      - intros it. destruct it as [i|i|o|o|o]; cbn.
+        + rewrite pd_wi'. apply (K8 w I (IInInfo i)).
+        + rewrite pd_wi'. apply (K8 w I (IPulled i)).
+        + destruct (FO o) as (_ & _ & -> & _). apply (K8 w I (IOutInfo o)).
+        + destruct (FO o) as (_ & _ & _ & -> & _). apply (K8 w I (IInfoPushed o)).
+        + destruct (FO o) as (_ & _ & _ & _ & _ & [(Ho & Hf & _)|(-> & _)]); [|apply (K8 w I (IDataPushed o))].
+          intros _. destruct (fires_pd_inv _ _ Hf) as (_ & [p Hp] & Hi & [t Ht]).
+          apply derivable_closed. cbn. split; [eapply own_out_of; eauto|]. split; [|split].
+          * apply (K7d w I o). rewrite Hp. reflexivity.
+          * apply (K8 w I (IInfoPushed o)). exact Hi.
+          * apply (K8 w I (IOutInfo o)). cbn. rewrite Ht. reflexivity.
+      - intros o. destruct (FO o) as (_ & _ & _ & -> & _). apply (K10 w I).
+    Qed.
+
+    Lemma get_data_some : forall w o, Inv w -> is_some (get_data sp w o) = true -> o_dpushed (wo w o) = true.
+    Proof.
+      intros w o I H. destruct (o_dpushed (wo w o)) eqn:E; [reflexivity|]. unfold get_data in H.
+      rewrite (K5b w I o E) in H. destruct (negb (is_some (o_info (wo w o)))); [discriminate|].
+      destruct (o_exch (wo w o) <? nconn sp o); discriminate.
+    Qed.
+
+    Lemma inv_pull : forall w, Inv w -> Inv (phase_pull sp c w).
+    Proof.
+      intros w I.
+      assert (FI : forall i, in_exch (wi (phase_pull sp c w) i) = in_exch (wi w i)
+                             /\ in_cache (wi (phase_pull sp c w) i) = in_cache (wi w i)).
+      { intros i. rewrite pl_wi. destruct (mem i (c_ins c) && fires_pl sp w i); cbn; split; reflexivity. }
+      constructor.
+      - intros o. rewrite pl_wo'. apply (K1 w I).
+      - intros o. rewrite pl_wo'. rewrite (K2 w I). symmetry. apply cnt_ext. intros i. rewrite (proj1 (FI i)). reflexivity.
+      - intros i. rewrite (proj1 (FI i)), pl_wo'. apply (K3 w I).
+      - intros o. rewrite pl_wo'. apply (K4 w I).
+      - intros o. rewrite pl_wo'. apply (K5 w I).
+      - intros o. rewrite pl_wo'. apply (K5b w I).
+      - intros i. rewrite (proj2 (FI i)). apply (K7i w I).
+      - intros o. rewrite pl_wo'. apply (K7o w I).
+      - intros o. rewrite pl_wo'. apply (K7d w I).
+      - intros it. destruct it as [i|i|o|o|o]; cbn.
+        + rewrite (proj1 (FI i)). apply (K8 w I (IInInfo i)).
+        + rewrite pl_wi. destruct (mem i (c_ins c) && fires_pl sp w i) eqn:E; [|apply (K8 w I (IPulled i))]. cbn. intros _.
+          apply andb_true_iff in E. destruct E as [Em E]. apply mem_In in Em.
+          unfold fires_pl in E. apply andb_true_iff in E. destruct E as [E E4]. apply andb_true_iff in E. destruct E as [E E3].
+          apply andb_true_iff in E. destruct E as [E1 E2].
+          apply derivable_closed. cbn. split; [eapply own_in_of; eauto|]. split; [exact E1|]. split.
+          * apply (K8 w I (IInInfo i)). exact E3.
+          * apply (K8 w I (IDataPushed (src i))). cbn. apply get_data_some; assumption.
+        + rewrite pl_wo'. apply (K8 w I (IOutInfo o)).
+        + rewrite pl_wo'. apply (K8 w I (IInfoPushed o)).
+        + rewrite pl_wo'. apply (K8 w I (IDataPushed o)).
+      - intros o. rewrite pl_wo'. apply (K10 w I).
+    Qed.
+
+    Lemma inv_call : forall w, Inv w -> Inv (fst (helper_connect sp c a w)).
+    Proof.
+      intros w I. unfold helper_connect. cbn [fst].
+      apply inv_pull, inv_pushdata, inv_pushinfo, inv_outinfo, inv_exchange, inv_cache, I.
+    Qed.
+  End Phases.
+
+  (** ** the invariant along the loop *)
+  Lemma inv_init : Inv (init_world sp).
+  Proof.
+    constructor; cbn.
+    - reflexivity.
+    - intros o. unfold cnt. symmetry. apply filter_false_length. intros i _. cbn. apply andb_false_r.
+    - discriminate.
+    - discriminate.
+    - discriminate.
+    - reflexivity.
+    - discriminate.
+    - discriminate.
+    - discriminate.
+    - intros it. destruct it as [i|i|o|o|o]; cbn; try discriminate.
+      intros H. apply derivable_closed. cbn. left. destruct (os_own (sp_out sp o)); [discriminate|discriminate].
+    - intros o H. destruct (os_own (sp_out sp o)); [reflexivity|congruence].
+  Qed.
+
+  Lemma iter_inv : forall cs' k w, (forall c st, In (c, st) cs' -> In c cs) -> Inv w -> Inv (it_world (iter sp k cs' w)).
+  Proof.
+    induction cs' as [|[c st] r IH]; intros k w HC I; cbn; [exact I|].
+    assert (HCr : forall c' st', In (c', st') r -> In c' cs) by (intros c' st' Hin; apply (HC c' st'); right; exact Hin).
+    assert (Hc : In c cs) by (apply (HC c st); left; reflexivity).
+    assert (I1 : Inv (fst (helper_connect sp c (prov_args sp w) w))).
+    { apply inv_call; [exact Hc|apply prov_args_just; apply (K8 w I)|exact I]. }
+    destruct st; cbn; try (apply IH; assumption);
+      destruct (helper_connect sp c (prov_args sp w) w) as [w1 st1]; cbn; apply IH; assumption.
+  Qed.
+
+  Lemma loop_inv : forall fuel cs' w, (forall c st, In (c, st) cs' -> In c cs) -> Inv w -> Inv (r_world (loop sp fuel cs' w)).
+  Proof.
+    induction fuel as [|f IH]; intros cs' w HC I; cbn; [exact I|].
+    pose proof (iter_inv cs' 0 w HC I) as I'.
+    destruct (unconnected 0 (it_comps (iter sp 0 cs' w))); cbn; [exact I'|].
+    destruct (it_new (iter sp 0 cs' w)); cbn; [|exact I'].
+    apply IH; [|exact I']. intros c st Hin. 
+    assert (Hf : In c (map fst (it_comps (iter sp 0 cs' w)))) by (apply in_map_iff; exists (c, st); split; [reflexivity|exact Hin]).
+    rewrite iter_fst in Hf. apply in_map_iff in Hf. destruct Hf as [[c' st'] [Hf Hin']]. simpl in Hf. subst c'. eapply HC; eauto.
+  Qed.
+
+  (** ** a call without progress: nothing that is derivable from the done items is missing *)
+  Definition weq (w w' : world) : Prop := (forall i, wi w i = wi w' i) /\ (forall o, wo w o = wo w' o).
+
+  Lemma weq_trans : forall a b c, weq a b -> weq b c -> weq a c.
+  Proof. intros a b c [H1 H2] [H3 H4]. split; intros x; [rewrite H1; apply H3|rewrite H2; apply H4]. Qed.
+
+  Lemma ostate_ext : forall st st' : ostate,
+      o_info st' = o_info st -> o_exch st' = o_exch st -> o_data st' = o_data st -> o_hinfo st' = o_hinfo st ->
+      o_ipushed st' = o_ipushed st -> o_dpushed st' = o_dpushed st -> o_icache st' = o_icache st ->
+      o_dcache st' = o_dcache st -> st' = st.
+  Proof. intros [] []; simpl; intros; subst; reflexivity. Qed.
+
+  Lemma existsb_ext' : forall (A : Type) (f g : A -> bool) l, (forall x, f x = g x) -> existsb f l = existsb g l.
+  Proof. intros A f g l H. induction l as [|x r IH]; simpl; [reflexivity|]. rewrite H, IH. reflexivity. Qed.
+
+  Lemma get_data_weq : forall w w' o, weq w w' -> get_data sp w o = get_data sp w' o.
+  Proof. intros w w' o [_ H]. unfold get_data. rewrite H. reflexivity. Qed.
+  Lemma fires_ex_weq : forall w w' i, weq w w' -> fires_ex sp w i = fires_ex sp w' i.
+  Proof. intros w w' i [H1 H2]. unfold fires_ex, ex_req. rewrite H1, H2. reflexivity. Qed.
+  Lemma fires_oi_weq : forall w w' o, weq w w' -> fires_oi sp w o = fires_oi sp w' o.
+  Proof. intros w w' o [_ H]. unfold fires_oi. rewrite H. reflexivity. Qed.
+  Lemma fires_pi_weq : forall w w' o, weq w w' -> fires_pi w o = fires_pi w' o.
+  Proof. intros w w' o [_ H]. unfold fires_pi. rewrite H. reflexivity. Qed.
+  Lemma fires_pd_weq : forall w w' o, weq w w' -> fires_pd w o = fires_pd w' o.
+  Proof. intros w w' o [_ H]. unfold fires_pd. rewrite H. reflexivity. Qed.
+  Lemma fires_pl_weq : forall w w' i, weq w w' -> fires_pl sp w i = fires_pl sp w' i.
+  Proof. intros w w' i H. unfold fires_pl. rewrite (get_data_weq w w' _ H). destruct H as [H1 _]. rewrite H1. reflexivity. Qed.
+
+  Section Idle.
+    Variable c : comp.
+    Hypothesis Hc : In c cs.
+
+    Lemma mem_fire_false : forall (f : nat -> bool) l x, existsb f l = false -> mem x l && f x = false.
+    Proof.
+      intros f l x H. destruct (mem x l) eqn:E; [|reflexivity]. apply mem_In in E.
+      simpl. eapply existsb_false; eauto.
+    Qed.
+
+    Lemma nofire_ex : forall w, existsb (fires_ex sp w) (c_ins c) = false -> weq (phase_exchange sp c w) w.
+    Proof.
+      intros w H. split.
+      - intros i. rewrite ex_wi. rewrite (mem_fire_false _ _ i H). reflexivity.
+      - intros o. destruct (ex_wo_fields sp c w o) as (E1 & E2 & E3 & E4 & E5 & E6 & E7 & E8).
+        apply ostate_ext; try assumption. rewrite E2.
+        unfold ex_count. rewrite filter_false_length; [lia|]. intros i Hi.
+        rewrite (existsb_false _ _ _ _ H Hi). reflexivity.
+    Qed.
+    Lemma nofire_oi : forall w, existsb (fires_oi sp w) (c_outs c) = false -> weq (phase_outinfo sp c w) w.
+    Proof. intros w H. split; [reflexivity|]. intros o. rewrite oi_wo, (mem_fire_false _ _ o H). reflexivity. Qed.
+    Lemma nofire_pi : forall w, existsb (fires_pi w) (c_outs c) = false -> weq (phase_pushinfo c w) w.
+    Proof. intros w H. split; [reflexivity|]. intros o. rewrite pi_wo, (mem_fire_false _ _ o H). reflexivity. Qed.
+    Lemma nofire_pd : forall w, existsb (fires_pd w) (c_outs c) = false -> weq (phase_pushdata sp c w) w.
+    Proof. intros w H. split; [reflexivity|]. intros o. rewrite pd_wo, (mem_fire_false _ _ o H). reflexivity. Qed.
+
+    Lemma idle_fires : forall a w, any_done_flag sp c a w = false ->
+        let w1 := phase_cache sp c a w in
+        existsb (fires_ex sp w1) (c_ins c) = false /\ existsb (fires_oi sp w1) (c_outs c) = false
+        /\ existsb (fires_pi w1) (c_outs c) = false /\ existsb (fires_pd w1) (c_outs c) = false
+        /\ existsb (fires_pl sp w1) (c_ins c) = false.
+    Proof.
+      intros a w H w1. unfold any_done_flag in H. fold w1 in H.
+      apply orb_false_iff in H. destruct H as [H B6]. apply orb_false_iff in H. destruct H as [H B5].
+      apply orb_false_iff in H. destruct H as [H B4]. apply orb_false_iff in H. destruct H as [B2 B3].
+      pose proof (nofire_ex w1 B2) as W2.
+      rewrite (existsb_ext' _ _ (fires_oi sp w1) _ (fun o => fires_oi_weq _ _ o W2)) in B3.
+      pose proof (weq_trans _ _ _ (nofire_oi _ ltac:(rewrite (existsb_ext' _ _ (fires_oi sp w1) _ (fun o => fires_oi_weq _ _ o W2)); exact B3)) W2) as W3.
+      rewrite (existsb_ext' _ _ (fires_pi w1) _ (fun o => fires_pi_weq _ _ o W3)) in B4.
+      pose proof (weq_trans _ _ _ (nofire_pi _ ltac:(rewrite (existsb_ext' _ _ (fires_pi w1) _ (fun o => fires_pi_weq _ _ o W3)); exact B4)) W3) as W4.
+      rewrite (existsb_ext' _ _ (fires_pd w1) _ (fun o => fires_pd_weq _ _ o W4)) in B5.
+      pose proof (weq_trans _ _ _ (nofire_pd _ ltac:(rewrite (existsb_ext' _ _ (fires_pd w1) _ (fun o => fires_pd_weq _ _ o W4)); exact B5)) W4) as W5.
+      rewrite (existsb_ext' _ _ (fires_pl sp w1) _ (fun i => fires_pl_weq _ _ i W5)) in B6.
+      repeat split; assumption.
+    Qed.
+
+    Definition slot_of (it : item) : Prop :=
+      match it with
+      | IInInfo i | IPulled i => In i (c_ins c)
+      | IOutInfo o | IInfoPushed o | IDataPushed o => In o (c_outs c)
+      end.
+
+    Lemma upd_cache_new : forall (A : Type) (new old : option A), is_some new = true -> is_some (upd_cache c new old) = true.
+    Proof. intros A new old H. unfold upd_cache. destruct (c_cache c), new; simpl in *; congruence. Qed.
+    Lemma upd_cache_old : forall (A : Type) (new old : option A),
+        c_cache c = true -> is_some old = true -> is_some (upd_cache c new old) = true.
+    Proof. intros A new old Hc' H. unfold upd_cache. rewrite Hc'. destruct new; [reflexivity|exact H]. Qed.
+
+    Lemma deps_ok_of : forall w ds, deps_in (fun it => done w it = true) ds -> deps_ok w ds = true.
+    Proof. intros w ds H. unfold deps_ok. apply forallb_forall. intros d Hd. apply H. exact Hd. Qed.
+
+    Lemma nconn_pos : forall i, In i (sp_ins sp) -> 0 < nconn sp (src i).
+    Proof.
+      intros i Hi. unfold nconn.
+      assert (G : forall l, In i l -> 0 < length (filter (fun j => Nat.eqb (src j) (src i)) l)).
+      { induction l as [|x r IH]; intros Hin; [destruct Hin|]. simpl. destruct Hin as [->|Hin].
+        - rewrite Nat.eqb_refl. simpl. lia.
+        - destruct (Nat.eqb (src x) (src i)); simpl; [lia|apply IH; exact Hin]. }
+      apply G. exact Hi.
+    Qed.
+
+    Lemma idle_closed : forall w, Inv w -> any_done_flag sp c (prov_args sp w) w = false ->
+        forall it, slot_of it -> step sp cs (fun it => done w it = true) it -> done w it = true.
+    Proof.
+      intros w I HF it Hslot Hstep.
+      destruct (idle_fires (prov_args sp w) w HF) as (B2 & B3 & B4 & B5 & B6).
+      set (a := prov_args sp w) in *. set (w1 := phase_cache sp c a w) in *.
+      destruct (done w it) eqn:Ed; [reflexivity|]. exfalso.
+      destruct it as [i|i|o|o|o]; cbn in Hslot, Hstep, Ed.
+      - (* in-info *)
+        destruct Hstep as (_ & Hjust & Hsrc). cbn in Hsrc.
+        pose proof (existsb_false _ _ _ i B2 Hslot) as Hf. unfold fires_ex in Hf.
+        assert (E1 : in_exch (wi w1 i) = in_exch (wi w i)) by (unfold w1; rewrite cache_wi; destruct (mem i (c_ins c)); reflexivity).
+        assert (E2 : o_info (wo w1 (src i)) = o_info (wo w (src i))) by (unfold w1; rewrite cache_wo; destruct (mem (src i) (c_outs c)); reflexivity).
+        rewrite E1, E2, Ed in Hf. rewrite (K1 w I) in Hsrc. rewrite Hsrc in Hf. cbn in Hf. rewrite andb_true_r in Hf.
+        assert (Hreq : is_some (ex_req sp w1 i) = true); [|congruence].
+        unfold ex_req. destruct (is_own (sp_in sp i)) eqn:Eo; [reflexivity|].
+        unfold w1. rewrite cache_wi, (proj2 (mem_In _ _) Hslot). cbn.
+        apply is_some_false in Ed.
+        destruct Hjust as [Hown|[(ds & t & Hp & Hd)|(rs & Hr & Hs & Ht)]]; [congruence| |].
+        + apply upd_cache_new. unfold ex_eff. rewrite Ed.
+          assert (Ha : a_ex a i = Some t) by (unfold a, prov_args; cbn; rewrite Hp, (deps_ok_of w ds Hd); reflexivity).
+          rewrite Ha. destruct (match is_rules (sp_in sp i) with Some _ => _ | None => _ end); reflexivity.
+        + destruct (apply_rules_complete w rs None Hs Ht) as [t Hat].
+          destruct (negb (c_cache c) || negb (is_some (in_cache (wi w i)))) eqn:Ec.
+          * apply upd_cache_new. unfold ex_eff. rewrite Hr, Ed, Ec, Hat. reflexivity.
+          * apply orb_false_iff in Ec. destruct Ec as [Ec1 Ec2]. apply negb_false_iff in Ec1, Ec2. apply upd_cache_old; assumption.
+      - (* pulled *)
+        destruct Hstep as (_ & Hp & Hin & Hdp). cbn in Hin, Hdp.
+        pose proof (existsb_false _ _ _ i B6 Hslot) as Hf. unfold fires_pl in Hf.
+        assert (E1 : wi w1 i = mk_istate (in_exch (wi w i)) (upd_cache c (ex_eff sp c a w i) (in_cache (wi w i))) (in_data (wi w i)))
+          by (unfold w1; rewrite cache_wi, (proj2 (mem_In _ _) Hslot); reflexivity).
+        rewrite E1 in Hf. cbn in Hf. rewrite Hp, Ed, Hin in Hf. cbn in Hf.
+        assert (Hg : is_some (get_data sp w1 (src i)) = true); [|congruence].
+        unfold get_data.
+        assert (EO : o_info (wo w1 (src i)) = o_info (wo w (src i)) /\ o_exch (wo w1 (src i)) = o_exch (wo w (src i))
+                     /\ o_data (wo w1 (src i)) = o_data (wo w (src i))).
+        { unfold w1. rewrite cache_wo. destruct (mem (src i) (c_outs c)); repeat split; reflexivity. }
+        destruct EO as (-> & -> & ->).
+        rewrite (K3 w I i Hin).
+        destruct (K5 w I _ Hdp) as [Hh Hl]. destruct (K4 w I _ Hh) as [_ Hle].
+        assert (El : (o_exch (wo w (src i)) <? nconn sp (src i)) = false) by (apply Nat.ltb_ge; exact Hle).
+        rewrite El. change (negb true) with false. cbv iota.
+        assert (Hpos : 0 < nconn sp (src i)) by (apply nconn_pos; apply c_ins_sub with (c := c); assumption).
+        specialize (Hl Hpos). unfold lookup_data in Hl. exact Hl.
+      - (* out-info *)
+        destruct Hstep as (_ & Hip & Hall). cbn in Hip.
+        pose proof (existsb_false _ _ _ o B3 Hslot) as Hf. unfold fires_oi in Hf.
+        assert (EO : o_hinfo (wo w1 o) = o_hinfo (wo w o) /\ o_info (wo w1 o) = o_info (wo w o) /\ o_exch (wo w1 o) = o_exch (wo w o)).
+        { unfold w1. rewrite cache_wo. destruct (mem o (c_outs c)); repeat split; reflexivity. }
+        destruct EO as (E1 & E2 & E3). rewrite E1, E2, E3, Ed in Hf. rewrite (K1 w I) in Hip. rewrite Hip in Hf. cbn in Hf.
+        apply Nat.leb_gt in Hf. rewrite (K2 w I) in Hf. unfold cnt, nconn in Hf.
+        rewrite (filter_ext_length _ (fun i => Nat.eqb (src i) o && is_some (in_exch (wi w i))) (fun i => Nat.eqb (src i) o) (sp_ins sp)) in Hf; [lia|].
+        intros i Hi. destruct (Nat.eqb (src i) o) eqn:Es; [|reflexivity]. apply Nat.eqb_eq in Es.
+        rewrite (Hall i Hi Es : is_some _ = true). reflexivity.
+      - (* info pushed *)
+        destruct Hstep as [Hown|(_ & Hjust)]; [rewrite (K10 w I o Hown) in Ed; discriminate|].
+        pose proof (existsb_false _ _ _ o B4 Hslot) as Hf. unfold fires_pi in Hf.
+        assert (E1 : wo w1 o = let st := wo w o in
+                     mk_ostate (o_info st) (o_exch st) (o_data st) (o_hinfo st) (o_ipushed st) (o_dpushed st)
+                               (upd_cache c (pi_eff sp c a w o) (o_icache st)) (upd_cache c (pd_eff a w o) (o_dcache st)))
+          by (unfold w1; rewrite cache_wo, (proj2 (mem_In _ _) Hslot); reflexivity).
+        rewrite E1 in Hf. cbn in Hf. rewrite Ed in Hf. cbn in Hf.
+        assert (Hh : o_hinfo (wo w o) = None).
+        { destruct (o_hinfo (wo w o)) eqn:Eh; [|reflexivity]. destruct (K4 w I o) as [Hp _]; [rewrite Eh; reflexivity|]. congruence. }
+        assert (Hreq : is_some (upd_cache c (pi_eff sp c a w o) (o_icache (wo w o))) = true); [|congruence].
+        destruct Hjust as [(ds & t & Hp & Hd)|(rs & Hr & Hs & Ht)].
+        + apply upd_cache_new. unfold pi_eff. rewrite Hh.
+          assert (Ha : a_pi a o = Some t) by (unfold a, prov_args; cbn; rewrite Hp, (deps_ok_of w ds Hd); reflexivity).
+          rewrite Ha. destruct (match os_rules (sp_out sp o) with Some _ => _ | None => _ end); reflexivity.
+        + destruct (apply_rules_complete w rs None Hs Ht) as [t Hat].
+          destruct (negb (c_cache c) || negb (is_some (o_icache (wo w o)))) eqn:Ec.
+          * apply upd_cache_new. unfold pi_eff. rewrite Hr, Ed, Ec, Hat. reflexivity.
+          * apply orb_false_iff in Ec. destruct Ec as [Ec1 Ec2]. apply negb_false_iff in Ec1, Ec2. apply upd_cache_old; assumption.
+      - (* data pushed *)
+        destruct Hstep as (_ & (ds & p & Hp & Hd) & Hip & Hoi). cbn in Hip, Hoi.
+        pose proof (existsb_false _ _ _ o B5 Hslot) as Hf. unfold fires_pd in Hf.
+        assert (E1 : wo w1 o = let st := wo w o in
+                     mk_ostate (o_info st) (o_exch st) (o_data st) (o_hinfo st) (o_ipushed st) (o_dpushed st)
+                               (upd_cache c (pi_eff sp c a w o) (o_icache st)) (upd_cache c (pd_eff a w o) (o_dcache st)))
+          by (unfold w1; rewrite cache_wo, (proj2 (mem_In _ _) Hslot); reflexivity).
+        rewrite E1 in Hf. cbn in Hf. rewrite Ed, Hip, Hoi in Hf. cbn in Hf. rewrite !andb_true_r in Hf.
+        assert (Hreq : is_some (upd_cache c (pd_eff a w o) (o_dcache (wo w o))) = true); [|congruence].
+        apply upd_cache_new. unfold pd_eff. rewrite Ed.
+        unfold a, prov_args; cbn. rewrite Hp, (deps_ok_of w ds Hd). reflexivity.
+    Qed.
+  End Idle.
+
+  Lemma idle_flag : forall c a w w', helper_connect sp c a w = (w', CONNECTING_IDLE) -> any_done_flag sp c a w = false.
+  Proof.
+    intros c a w w' H. rewrite helper_connect_eq in H.
+    assert (H2 : snd (fst (helper_connect sp c a w),
+                      if all_done sp c (fst (helper_connect sp c a w)) then CONNECTED
+                      else if any_done_flag sp c a w then CONNECTING else CONNECTING_IDLE) = CONNECTING_IDLE)
+      by (rewrite H; reflexivity).
+    cbn [snd] in H2.
+    destruct (all_done sp c (fst (helper_connect sp c a w))); [discriminate|].
+    destruct (any_done_flag sp c a w); [discriminate|reflexivity].
+  Qed.
+
+  Lemma step_ext : forall (P Q : item -> Prop), (forall it, P it <-> Q it) -> forall it, step sp cs P it -> step sp cs Q it.
+  Proof. intros P Q H. apply step_mono. intros it. apply H. Qed.
+
+  (** a round without progress: items unchanged, and every unconnected component is closed *)
+  Lemma iter_closed : forall cs' k w,
+      (forall c st, In (c, st) cs' -> In c cs /\ st <> INITIALIZED) -> Inv w ->
+      it_new (iter sp k cs' w) = false ->
+      (forall it, done (it_world (iter sp k cs' w)) it = done w it)
+      /\ (forall c st, In (c, st) (it_comps (iter sp k cs' w)) -> st <> CONNECTED ->
+                       forall it, slot_of c it -> step sp cs (fun it => done w it = true) it -> done w it = true).
+  Proof.
+    induction cs' as [|[c st] r IH]; intros k w HC I HN; cbn in *; [split; [reflexivity|intros ? ? []]|].
+    assert (HCr : forall c' st', In (c', st') r -> In c' cs /\ st' <> INITIALIZED) by (intros c' st' Hin; apply (HC c' st'); right; exact Hin).
+    destruct (HC c st (or_introl eq_refl)) as [Hc Hst].
+    destruct st; [congruence| | |]; cbn in *.
+    - destruct (helper_connect sp c (prov_args sp w) w) as [w1 st1] eqn:E; cbn in *.
+      apply orb_false_iff in HN. destruct HN as [HN1 HN]. apply orb_false_iff in HN1. destruct HN1 as [N1 N2].
+      pose proof (progress_iff sp c _ w w1 st1 E) as (_ & _ & _ & _ & N3).
+      assert (st1 = CONNECTING_IDLE) by (destruct st1; simpl in *; congruence). subst st1.
+      pose proof (idle_flag _ _ _ _ E) as HF.
+      assert (Hw1 : fst (helper_connect sp c (prov_args sp w) w) = w1) by (rewrite E; reflexivity).
+      pose proof (call_ok sp c (prov_args sp w) w) as (_ & F & _). rewrite Hw1 in F. specialize (F HF).
+      assert (I1 : Inv w1) by (rewrite <- Hw1; apply inv_call; [exact Hc|apply prov_args_just; apply (K8 w I)|exact I]).
+      destruct (IH (S k) w1 HCr I1 HN) as [G1 G2]. split.
+      + intros it. rewrite G1. apply F.
+      + intros c' st' [Heq|Hin] Hne it Hs Hstep.
+        * inversion Heq; subst. eapply idle_closed; eauto.
+        * rewrite <- F. eapply G2; eauto. eapply step_ext; [|exact Hstep]. intros it'. rewrite F. tauto.
+    - destruct (helper_connect sp c (prov_args sp w) w) as [w1 st1] eqn:E; cbn in *.
+      apply orb_false_iff in HN. destruct HN as [HN1 HN]. apply orb_false_iff in HN1. destruct HN1 as [N1 N2].
+      pose proof (progress_iff sp c _ w w1 st1 E) as (_ & _ & _ & _ & N3).
+      assert (st1 = CONNECTING_IDLE) by (destruct st1; simpl in *; congruence). subst st1.
+      pose proof (idle_flag _ _ _ _ E) as HF.
+      assert (Hw1 : fst (helper_connect sp c (prov_args sp w) w) = w1) by (rewrite E; reflexivity).
+      pose proof (call_ok sp c (prov_args sp w) w) as (_ & F & _). rewrite Hw1 in F. specialize (F HF).
+      assert (I1 : Inv w1) by (rewrite <- Hw1; apply inv_call; [exact Hc|apply prov_args_just; apply (K8 w I)|exact I]).
+      destruct (IH (S k) w1 HCr I1 HN) as [G1 G2]. split.
+      + intros it. rewrite G1. apply F.
+      + intros c' st' [Heq|Hin] Hne it Hs Hstep.
+        * inversion Heq; subst. eapply idle_closed; eauto.
+        * rewrite <- F. eapply G2; eauto. eapply step_ext; [|exact Hstep]. intros it'. rewrite F. tauto.
+    - destruct (IH (S k) w HCr I HN) as [G1 G2]. split; [exact G1|].
+      intros c' st' [Heq|Hin] Hne; [inversion Heq; subst; congruence|eapply G2; eauto].
+  Qed.
+
+  Lemma loop_closed : forall fuel cs' w,
+      (forall c st, In (c, st) cs' -> In c cs) -> Inv w ->
+      forall L, r_out (loop sp fuel cs' w) = Circular L ->
+      forall c st, In (c, st) (r_comps (loop sp fuel cs' w)) -> st <> CONNECTED ->
+      forall it, slot_of c it -> step sp cs (fun it => done (r_world (loop sp fuel cs' w)) it = true) it ->
+                 done (r_world (loop sp fuel cs' w)) it = true.
+  Proof.
+    induction fuel as [|f IH]; intros cs' w HC I L; cbn; [discriminate|].
+    pose proof (iter_inv cs' 0 w HC I) as I'.
+    destruct (unconnected 0 (it_comps (iter sp 0 cs' w))) eqn:EU; cbn; [discriminate|].
+    destruct (it_new (iter sp 0 cs' w)) eqn:EN; cbn.
+    - apply IH; [|exact I']. intros c st Hin.
+      assert (Hf : In c (map fst (it_comps (iter sp 0 cs' w)))) by (apply in_map_iff; exists (c, st); split; [reflexivity|exact Hin]).
+      rewrite iter_fst in Hf. apply in_map_iff in Hf. destruct Hf as [[c' st'] [Hf Hin']]. simpl in Hf. subst c'. eapply HC; eauto.
+    - intros _ c st Hin Hne it Hs Hstep.
+      assert (HC' : forall c st, In (c, st) cs' -> In c cs /\ st <> INITIALIZED).
+      { intros c0 st0 Hin0. split; [eapply HC; eauto|]. intros ->. rewrite (iter_new_init sp cs' 0 w c0 Hin0) in EN. discriminate. }
+      destruct (iter_closed cs' 0 w HC' I EN) as [G1 G2].
+      rewrite G1. eapply G2; eauto. eapply step_ext; [|exact Hstep]. intros it'. cbv beta. rewrite G1. tauto.
+  Qed.
+
+  Lemma run_inv : Inv (r_world (connect_run sp cs)).
+  Proof.
+    unfold connect_run. apply loop_inv; [|apply inv_init].
+    intros c st Hin. apply in_map_iff in Hin. destruct Hin as [x [Hx Hin]]. inversion Hx. subst. exact Hin.
+  Qed.
+
+  Lemma comp_status : forall c, In c cs -> exists st, In (c, st) (r_comps (connect_run sp cs)).
+  Proof.
+    intros c Hc.
+    assert (Hm : map fst (r_comps (connect_run sp cs)) = cs).
+    { unfold connect_run. rewrite loop_fst, map_map. simpl. apply map_id. }
+    rewrite <- Hm in Hc. apply in_map_iff in Hc. destruct Hc as [[c' st] [Hf Hin]]. simpl in Hf. subst c'. exists st. exact Hin.
+  Qed.
+
+  Lemma owned_closed : forall c it, In c cs -> slot_of c it -> In it (declared sp c) ->
+      step sp cs (fun it => done (r_world (connect_run sp cs)) it = true) it ->
+      done (r_world (connect_run sp cs)) it = true.
+  Proof.
+    intros c it Hc Hslot Hdecl Hstep.
+    destruct (comp_status c Hc) as [st Hst].
+    destruct (r_out (connect_run sp cs)) as [|L|] eqn:EO.
+    - destruct WF as (WD & _). apply (proj1 (run_stall_set sp cs WD) EO c Hc it Hdecl).
+    - destruct st; try (eapply (run_sound sp cs c CONNECTED); eauto; fail);
+        (unfold connect_run in *; eapply loop_closed; eauto; try discriminate; try apply inv_init;
+         intros c' st' Hin; apply in_map_iff in Hin; destruct Hin as [x [Hx Hin]]; inversion Hx; subst; exact Hin).
+    - exfalso. exact (proj1 (run_terminates sp cs) EO).
+  Qed.
+
+  Lemma final_closed : closed sp cs (fun it => done (r_world (connect_run sp cs)) it = true).
+  Proof.
+    intros it Hstep. destruct it as [i|i|o|o|o].
+    - assert (Ho : own_in cs i) by apply Hstep. unfold own_in, own_out in Ho. apply in_flat_map in Ho. destruct Ho as [c [Hc Hi]].
+      apply (owned_closed c); auto. apply declared_in. exact Hi.
+    - assert (Ho : own_in cs i) by apply Hstep. unfold own_in, own_out in Ho. apply in_flat_map in Ho. destruct Ho as [c [Hc Hi]].
+      apply (owned_closed c); auto. apply declared_pull; [exact Hi|apply Hstep].
+    - assert (Ho : own_out cs o) by apply Hstep. unfold own_in, own_out in Ho. apply in_flat_map in Ho. destruct Ho as [c [Hc Hi]].
+      apply (owned_closed c); auto. apply declared_out. exact Hi.
+    - destruct Hstep as [Hown|[Ho Hj]].
+      + cbn. apply (K10 _ run_inv). exact Hown.
+      + unfold own_out in Ho. apply in_flat_map in Ho. destruct Ho as [c [Hc Hi]].
+        apply (owned_closed c); auto; [apply declared_out; exact Hi|]. cbn. right. split; [unfold own_out; apply in_flat_map; eauto|exact Hj].
+    - assert (Ho : own_out cs o) by apply Hstep. unfold own_in, own_out in Ho. apply in_flat_map in Ho. destruct Ho as [c [Hc Hi]].
+      apply (owned_closed c); auto. apply declared_out. exact Hi.
+  Qed.
+
+  Lemma done_iff_derivable : forall it, done (r_world (connect_run sp cs)) it = true <-> D it.
+  Proof.
+    intros it. split; [apply (K8 _ run_inv)|]. intros H. apply (H _ final_closed).
+  Qed.
+
+  (** C06_fixpoint_full *)
+  Lemma fixpoint_full_holds :
+    let r := connect_run sp cs in
+    (forall it, done (r_world r) it = true <-> D it)
+    /\ ((forall c it, In c cs -> In it (declared sp c) -> D it) -> r_out r = Success)
+    /\ (forall L, r_out r = Circular L ->
+                  forall n, In n L <-> exists c, nth_error cs n = Some c
+                                                 /\ exists it, In it (declared sp c) /\ ~ D it).
+  Proof.
+    intros r. subst r. destruct WF as (WD & _).
+    assert (H3 : forall L, r_out (connect_run sp cs) = Circular L ->
+                  forall n, In n L <-> exists c, nth_error cs n = Some c /\ exists it, In it (declared sp c) /\ ~ D it).
+    { intros L HL n. destruct (proj2 (run_stall_set sp cs WD) L HL) as [-> _].
+      rewrite stuck_idx_exact. split; intros [c [Hn [it [Hin Hd]]]]; exists c; (split; [exact Hn|]); exists it; (split; [exact Hin|]).
+      - intros HD. apply done_iff_derivable in HD. congruence.
+      - destruct (done (r_world (connect_run sp cs)) it) eqn:E; [|reflexivity]. exfalso. apply Hd. apply done_iff_derivable. exact E. }
+    split; [exact done_iff_derivable|]. split; [|exact H3].
+    intros Hall. destruct (r_out (connect_run sp cs)) as [|L|] eqn:EO; [reflexivity| |exfalso; exact (proj1 (run_terminates sp cs) EO)].
+    exfalso. destruct (proj2 (run_stall_set sp cs WD) L EO) as [_ Hne].
+    destruct L as [|n L']; [congruence|].
+    destruct (proj1 (H3 (n :: L') eq_refl n) (or_introl eq_refl)) as [c [Hn [it [Hin Hd]]]].
+    apply Hd. apply (Hall c it); [eapply nth_error_In; eauto|exact Hin].
+  Qed.
+End Fix.
